@@ -506,7 +506,9 @@ func (ex *Exec) dataKey(w *World) string {
 	term := func(t *Term) {
 		if t == nil {
 			mix("n")
-		} else if t.IsConst() {
+		} else if t.IsConst() && t.Val.IsInt64() && t.Val.Int64() >= -16 && t.Val.Int64() <= 16 {
+			// small constants are control data (flags, counters, states); larger ones and
+			// symbolic values are data and may be merged
 			mix("c" + t.Val.String())
 		} else {
 			mix("?")
@@ -570,8 +572,8 @@ func (ex *Exec) dataKey(w *World) string {
 	}
 	for _, o := range ex.sched.objs {
 		s, ok := w.heap[o]
-		if !ok {
-			continue
+		if !ok || o.Ghost {
+			continue // harness-owned (ghost) objects never keep worlds apart
 		}
 		mix(fmt.Sprintf("|o%d", o.ID))
 		switch o.Kind {
@@ -590,10 +592,8 @@ func (ex *Exec) dataKey(w *World) string {
 			term(s.Closed)
 		}
 	}
-	term(w.clock)
 	for _, t := range w.timers {
 		term(t.active)
-		term(t.due)
 	}
 	return fmt.Sprintf("%x", h)
 }
@@ -855,6 +855,12 @@ func (ex *Exec) Quiesce(maxSteps int) (*Term, []*World) {
 	var terminal []*World
 	still := tb.False
 	for depth := 0; len(frontier) > 0; depth++ {
+		if !ex.Deadline.IsZero() && time.Now().After(ex.Deadline) {
+			ex.Aborted = true
+		}
+		if ex.Aborted {
+			return tb.False, nil
+		}
 		if len(frontier) > sc.maxFront {
 			sc.maxFront = len(frontier)
 		}
@@ -1025,6 +1031,9 @@ func (ex *Exec) Quiesce(maxSteps int) (*Term, []*World) {
 						ex.baseG = nil
 						ex.snapshot(nw)
 						k := ex.worldKey(nw)
+						if ex.SplitData {
+							k += "#" + ex.dataKey(nw)
+						}
 						if old, ok := next[k]; ok {
 							ex.mergeWorlds(old, nw)
 							ex.NMerges++
